@@ -30,7 +30,17 @@ var c19Plain = []string{"Int8", "Int16", "Int32", "Int64", "Int128", "Int256", "
 	"IntervalSecond", "IntervalMinute", "IntervalHour", "IntervalDay", "IntervalWeek", "IntervalMonth", "IntervalQuarter", "IntervalYear"}
 
 func c19EnumName(rng *rand.Rand) (wire, logical string) {
-	switch rng.Intn(9) {
+	switch rng.Intn(14) {
+	case 9:
+		return `tab\tsep`, "tab\tsep"
+	case 10:
+		return `C:\\dir`, `C:\dir`
+	case 11:
+		return `new\nline end`, "new\nline end"
+	case 12:
+		return `q\'q\\z`, `q'q\z`
+	case 13:
+		return `cr\rlf\n`, "cr\rlf\n"
 	case 0:
 		return "a b", "a b"
 	case 1:
